@@ -149,9 +149,12 @@ class Summary:
         self.unresolved = set()
         self.sites = {}  # (root, path, kind) -> first (lineno, text) that caused the write
         self.effect_sites = {}
+        # memo writes that are unconditional assignments (`_cache[k] = v`, a setter); the fill-on-miss of a cache_decorator
+        # getter is a memo write too, but it never replaces an entry that is already there
+        self.explicit_memo = set()
 
     def size(self):
-        return len(self.reads) + len(self.writes) + len(self.ret) + len(self.effects) + len(self.ret_types)
+        return len(self.reads) + len(self.writes) + len(self.ret) + len(self.effects) + len(self.ret_types) + len(self.explicit_memo)
 
 
 class Effects:
@@ -429,7 +432,7 @@ class _Analyzer:
             for r in self.canon(r0.bare()):
                 self.s.reads.add((r.root, self.eng.normalise(r.path), tag))
 
-    def write(self, refs, kind, node):
+    def write(self, refs, kind, node, lazy=False):
         for r0 in refs:
             if r0.root in (FRESH,) or r0.held:
                 continue
@@ -442,6 +445,8 @@ class _Analyzer:
                 k = "memo"
             key = (r.root, path, k)
             self.s.writes.add(key)
+            if k == "memo" and not lazy:
+                self.s.explicit_memo.add((r.root, path))
             if key not in self.s.sites and node is not None:
                 self.s.sites[key] = (getattr(node, "lineno", 0), ast.unparse(node)[:100] if isinstance(node, ast.AST) else str(node))
 
@@ -786,7 +791,7 @@ class _Analyzer:
                     out |= self._subst_ref(r, {g.params[0]: base} if g.params else {})
                 types |= sub.ret_types
                 if g.kind == "cached":
-                    self.write([r.ext("_cache").ext(f"[{attr}]") for r in base], "memo", e)
+                    self.write([r.ext("_cache").ext(f"[{attr}]") for r in base], "memo", e, lazy=True)
                     self.read([r.ext("_cache").ext(f"[{attr}]") for r in base])
                 types |= self._attr_types(attr, c)
             elif c.methods.get("__getattr__") is not None and mem.get("method") is None and not mem.get("attr") \
@@ -887,6 +892,8 @@ class _Analyzer:
                 k = "memo" if "_cache" in p else kind
                 key = (r.root, p, k)
                 self.s.writes.add(key)
+                if k == "memo" and (root, path) in sub.explicit_memo:
+                    self.s.explicit_memo.add((r.root, p))
                 if key not in self.s.sites:
                     self.s.sites[key] = (getattr(node, "lineno", 0), ast.unparse(node)[:100])
         for ef in sub.effects:
